@@ -65,3 +65,154 @@ Proof.
     destruct p; try exact I. apply Hc. exact Hin. }
   rewrite Hf. unfold hour, sec in *. lia.
 Qed.
+
+(* ---- C02 -> C01: the parser model's plugin list is grouped by kind in the order that goextract
+   reads from parsePlugins (gen/ExtPlugins.plugin_order), which is the hypothesis of C01_kind_order. *)
+From CR Require Import Model.Config Spec.BuildSpec.
+From Coq Require Import Sorted.
+Local Open Scope N_scope.
+
+Definition kind_is (k : N) (p : plugin) : Prop := rank_in plugin_order p = k.
+
+Lemma bind_ok {A B} (r : result A) (f : A -> result B) b :
+  bind r f = Ok b -> exists a, r = Ok a /\ f a = Ok b.
+Proof. destruct r as [a|e]; cbn [bind]; [eauto|discriminate]. Qed.
+
+Lemma mapM_forall {A} (f : A -> result plugin) (P : plugin -> Prop) :
+  (forall x y, f x = Ok y -> P y) -> forall l ys, mapM f l = Ok ys -> Forall P ys.
+Proof.
+  intros Hf. induction l as [|x t IH]; intros ys H; cbn [mapM] in H.
+  - injection H as <-. constructor.
+  - apply bind_ok in H as (y & Hy & H). apply bind_ok in H as (ys' & Hys & H). injection H as <-.
+    constructor; [exact (Hf x y Hy)|exact (IH ys' Hys)].
+Qed.
+
+(* peel the binds of a parser function until its final Ok *)
+Ltac peel H :=
+  repeat (let a := fresh "a" in let Ha := fresh "Ha" in
+          apply bind_ok in H as (a & Ha & H)).
+
+Lemma parse_prefix_kind x y : parse_prefix x = Ok y -> kind_is 0 y.
+Proof.
+  unfold parse_prefix. intros H. apply bind_ok in H as (o & _ & H).
+  destruct (match o with Some ab => ab | None => (0, 64) end) as [a b].
+  peel H. injection H as <-. reflexivity.
+Qed.
+Lemma parse_route_kind x y : parse_route x = Ok y -> kind_is 1 y.
+Proof.
+  unfold parse_route. intros H. apply bind_ok in H as (o & _ & H).
+  destruct (match o with Some ab => ab | None => (0, 0) end) as [a b].
+  peel H. injection H as <-. reflexivity.
+Qed.
+Lemma parse_rdnss_kind mx x y : parse_rdnss mx x = Ok y -> kind_is 2 y.
+Proof.
+  unfold parse_rdnss. intros H. apply bind_ok in H as (lt & _ & H).
+  destruct (rd_servers x); [injection H as <-; reflexivity|].
+  apply bind_ok in H as (r & _ & H). injection H as <-. reflexivity.
+Qed.
+Lemma parse_dnssl_kind mx x y : parse_dnssl mx x = Ok y -> kind_is 3 y.
+Proof. unfold parse_dnssl. intros H. peel H. injection H as <-. reflexivity. Qed.
+Lemma parse_pref64_kind mx x y : parse_pref64 mx x = Ok y -> kind_is 7 y.
+Proof.
+  unfold parse_pref64. intros H. apply bind_ok in H as (o & _ & H).
+  destruct o as [[a b]|]; [|discriminate]. destruct (pref64_len_ok b); [|discriminate].
+  injection H as <-. reflexivity.
+Qed.
+
+Lemma blocks_sorted : forall (ls : list (list plugin)) (k : N),
+  (forall i l, nth_error ls i = Some l -> Forall (kind_is (k + N.of_nat i)) l) ->
+  StronglySorted N.le (map (rank_in plugin_order) (concat ls)) /\
+  Forall (fun r => k <= r) (map (rank_in plugin_order) (concat ls)).
+Proof.
+  induction ls as [|l ls IH]; intros k H; cbn [concat map]; [split; constructor|].
+  assert (Hl : Forall (kind_is k) l).
+  { specialize (H 0%nat l eq_refl). now rewrite N.add_0_r in H. }
+  destruct (IH (k + 1)) as [Hs Hge].
+  { intros i l' Hn. specialize (H (S i) l' Hn). rewrite Nat2N.inj_succ in H.
+    now replace (k + 1 + N.of_nat i) with (k + N.succ (N.of_nat i)) by lia. }
+  rewrite map_app. clear H IH. split.
+  - induction Hl as [|p l Hp Hl IHl]; cbn [map app]; [exact Hs|].
+    constructor; [exact IHl|]. rewrite Hp. apply Forall_app. split.
+    + clear IHl. induction Hl as [|q l' Hq _ IHq]; cbn [map]; constructor; [rewrite Hq; lia|exact IHq].
+    + eapply Forall_impl; [|exact Hge]. cbn. intros; lia.
+  - apply Forall_app. split.
+    + clear Hs Hge. induction Hl as [|p l' Hp _ IHp]; cbn [map]; constructor; [rewrite Hp; lia|exact IHp].
+    + eapply Forall_impl; [|exact Hge]. cbn. intros; lia.
+Qed.
+
+Lemma parse_plugins_sorted ifi mx ps : parse_plugins ifi mx = Ok ps ->
+  sorted_by (rank_in plugin_order) ps.
+Proof.
+  unfold parse_plugins. intros H.
+  apply bind_ok in H as (prefixes & Hp & H). apply bind_ok in H as (u1 & _ & H).
+  apply bind_ok in H as (routes & Hr & H). apply bind_ok in H as (u2 & _ & H).
+  apply bind_ok in H as (rdnss & Hd & H). apply bind_ok in H as (dnssl & Hs & H).
+  apply bind_ok in H as (u3 & _ & H). cbv zeta in H.
+  apply bind_ok in H as (cp & Hc & H). apply bind_ok in H as (p64 & H6 & H). injection H as <-.
+  set (mtu := if (ri_mtu ifi =? 0)%Z then [] else [PMTU (ri_mtu ifi)]).
+  set (lla := match ri_source_lla ifi with Some false => [] | _ => [PLLA] end).
+  unfold sorted_by.
+  replace (prefixes ++ routes ++ rdnss ++ dnssl ++ mtu ++ lla ++ cp ++ p64)
+    with (concat [prefixes; routes; rdnss; dnssl; mtu; lla; cp; p64]) by (cbn [concat]; now rewrite app_nil_r).
+  apply (blocks_sorted _ 0). intros i l Hn.
+  destruct i as [|[|[|[|[|[|[|[|i]]]]]]]]; cbn in Hn; try discriminate;
+    try (injection Hn as <-; cbn [N.of_nat N.add Pos.of_succ_nat Pos.succ]).
+  - exact (mapM_forall _ _ parse_prefix_kind _ _ Hp).
+  - exact (mapM_forall _ _ parse_route_kind _ _ Hr).
+  - exact (mapM_forall _ _ (parse_rdnss_kind mx) _ _ Hd).
+  - exact (mapM_forall _ _ (parse_dnssl_kind mx) _ _ Hs).
+  - unfold mtu. destruct (ri_mtu ifi =? 0)%Z; repeat constructor.
+  - unfold lla. destruct (ri_source_lla ifi) as [[]|]; repeat constructor.
+  - destruct (ri_captive ifi) as [| |u]; [injection Hc as <-; constructor|discriminate|].
+    destruct (N.eqb u 0); [discriminate|]. injection Hc as <-. repeat constructor.
+  - exact (mapM_forall _ _ (parse_pref64_kind mx) _ _ H6).
+  - destruct i; discriminate.
+Qed.
+
+(* every interface the parser model returns has a plugin list grouped by kind in the extracted order *)
+Lemma parse_interface_sorted ifi name i : parse_interface ifi name = Ok i ->
+  sorted_by (rank_in plugin_order) (if_plugins i).
+Proof.
+  unfold parse_interface. intros H. apply bind_ok in H as (u & _ & H).
+  destruct (ri_monitor ifi).
+  - injection H as <-. constructor.
+  - peel H. injection H as <-. cbn [if_plugins].
+    match goal with Hp : parse_plugins _ _ = Ok _ |- _ => exact (parse_plugins_sorted _ _ _ Hp) end.
+Qed.
+
+Lemma mapM_in {A B} (f : A -> result B) (P : B -> Prop) :
+  (forall x y, f x = Ok y -> P y) -> forall l ys, mapM f l = Ok ys -> Forall P ys.
+Proof.
+  intros Hf. induction l as [|x t IH]; intros ys H; cbn [mapM] in H.
+  - injection H as <-. constructor.
+  - apply bind_ok in H as (y & Hy & H). apply bind_ok in H as (ys' & Hys & H). injection H as <-.
+    constructor; [exact (Hf x y Hy)|exact (IH ys' Hys)].
+Qed.
+
+Lemma parse_interfaces_sorted st ifis : parse_interfaces st = Ok ifis ->
+  Forall (fun i => sorted_by (rank_in plugin_order) (if_plugins i)) ifis.
+Proof.
+  unfold parse_interfaces. intros H.
+  destruct (negb (N.eqb (ri_name st) 0)); destruct (ri_names st); try discriminate;
+    eapply mapM_in; try exact H; intros x y; apply parse_interface_sorted.
+Qed.
+
+Lemma parse_stanzas_sorted sts : forall seen acc out,
+  Forall (fun i => sorted_by (rank_in plugin_order) (if_plugins i)) acc ->
+  parse_stanzas sts seen acc = Ok out ->
+  Forall (fun i => sorted_by (rank_in plugin_order) (if_plugins i)) out.
+Proof.
+  induction sts as [|st rest IH]; intros seen acc out Hacc H; cbn [parse_stanzas] in H.
+  - injection H as <-. exact Hacc.
+  - apply bind_ok in H as (ifis & Hi & H). apply bind_ok in H as (seen' & _ & H).
+    apply (IH seen' (acc ++ ifis) out); [|exact H].
+    apply Forall_app. split; [exact Hacc|exact (parse_interfaces_sorted st ifis Hi)].
+Qed.
+
+Lemma parse_sorted raw c : parse raw = Ok c ->
+  Forall (fun i => sorted_by (rank_in plugin_order) (if_plugins i)) (fst c).
+Proof.
+  unfold parse. intros H. apply bind_ok in H as (u & _ & H). cbv zeta in H.
+  apply bind_ok in H as (dbg & _ & H). apply bind_ok in H as (ifis & Hi & H). injection H as <-.
+  cbn [fst]. exact (parse_stanzas_sorted _ [] [] ifis (Forall_nil _) Hi).
+Qed.
